@@ -354,6 +354,41 @@ Theorem C10_equiv_fragment_whole_url_partial :
 Proof. exact parse_url_fragment. Qed.
 Print Assumptions C10_equiv_fragment_whole_url_partial.
 
+(* IPv4 notations of the same address in the host of a whole URL (one integer or four; decimal, 0-octal, 0x-hex): same
+   normalized URL and components.  [ipv4_text a v]: a is an ASCII text that passes the IDNA label check and whose lower-cased
+   form denotes the value v; v is a 32-bit value ([ipv4_compressed v] is defined) *)
+Theorem C10_equiv_ipv4_whole_url_partial :
+  forall enc lower_o idna_o ipv6_o int_o unq_o (sch sc : str) (dport : N) (u : option str) (a a' : str) (v : Z) (pp R : str),
+    scheme_text lower_o sch sc dport ->
+    (forall x, u = Some x -> memb 64 x = false /\ memb 47 x = false /\ memb 63 x = false /\ memb 35 x = false) ->
+    ipv4_text int_o a v -> ipv4_text int_o a' v -> (exists d, ipv4_compressed v = Some d) -> plain_host_text a -> plain_host_text a' -> port_text pp ->
+    memb 47 a = false -> memb 63 a = false -> memb 35 a = false -> memb 64 a = false ->
+    memb 47 a' = false -> memb 63 a' = false -> memb 35 a' = false -> memb 64 a' = false ->
+    rest_ok R ->
+    let U := match u with Some x => x ++ [64] | None => [] end in
+    let rem := [47; 47] ++ (U ++ a ++ pp) ++ R in
+    let rem' := [47; 47] ++ (U ++ a' ++ pp) ++ R in
+    plain_text (sch ++ 58 :: rem) -> plain_text (sch ++ 58 :: rem') ->
+    same_url enc (parse enc lower_o idna_o ipv6_o int_o unq_o (sch ++ 58 :: rem))
+                 (parse enc lower_o idna_o ipv6_o int_o unq_o (sch ++ 58 :: rem')).
+Proof. exact parse_url_ipv4. Qed.
+Print Assumptions C10_equiv_ipv4_whole_url_partial.
+
+(* non-vacuity: "http://0300.0250.0.01:8080/x" and "http://0xC0A80001:8080/x" both give http://192.168.0.1:8080/x *)
+Example C10_ipv4_whole_url_nonvacuous :
+  let io := fun (_ : N) (_ : str) => @None Z in
+  let a := [48; 51; 48; 48; 46; 48; 50; 53; 48; 46; 48; 46; 48; 49] in
+  let a' := [48; 120; 67; 48; 65; 56; 48; 48; 48; 49] in
+  let run h := parse ex_enc (fun s => s) (fun _ => None) ex_ipv6 io unescape
+                 ([104; 116; 116; 112; 58; 47; 47] ++ h ++ [58; 56; 48; 56; 48; 47; 120]) in
+  ipv4_text io a 3232235521%Z /\ ipv4_text io a' 3232235521%Z /\ (exists d, ipv4_compressed 3232235521%Z = Some d) /\
+  match run a, run a' with
+  | Ok i, Ok i' => url_of ex_enc i = url_of ex_enc i' /\
+                   url_of ex_enc i = Ok [104; 116; 116; 112; 58; 47; 47; 49; 57; 50; 46; 49; 54; 56; 46; 48; 46; 49; 58; 56; 48; 56; 48; 47; 120]
+  | _, _ => False
+  end.
+Proof. cbv zeta. unfold ipv4_text. vm_compute. repeat split; eauto. Qed.
+
 (* non-vacuity: "HTTP://u:p@EXAMPLE.Test:8080/a/./x/../b?q#f" and "HTTP://u:p@example.test:8080/a/b?q#f" satisfy the premises
    (scheme text, plain texts) and parse to http://u:p@example.test:8080/a/b?q *)
 Example C10_whole_url_nonvacuous :
